@@ -316,3 +316,69 @@ Qed.
 
 Lemma Forall2_nth_Q u v i : veq u v -> nthQ u i == nthQ v i.
 Proof. intros H; revert i; induction H; intros [|i]; simpl; try reflexivity; auto. apply IHForall2. Qed.
+
+(* ---------- Cauchy-Schwarz as a two-sided bound ---------- *)
+Lemma sq_vscale t u : sq (vscale t u) == t * t * sq u.
+Proof. unfold sq. rewrite dot_vscale_l, dot_vscale_r. ring. Qed.
+Lemma dot_abs_bound u v s r : length u = length v -> 0 <= s -> 0 <= r ->
+  sq u <= s*s -> sq v <= r*r -> - (s * r) <= dot u v /\ dot u v <= s * r.
+Proof.
+  intros HL Hs Hr Hu Hv. split; [|apply dot_le_bound; auto].
+  assert (H : dot (vscale (-1) u) v <= s * r).
+  { apply dot_le_bound; auto. rewrite len_vscale; auto. rewrite sq_vscale. lra. }
+  rewrite dot_vscale_l in H. lra.
+Qed.
+
+(* ---------- boxes with possibly infinite bounds (None = unbounded on that side) ---------- *)
+Fixpoint in_boxo (x : vec) (lb ub : list (option Q)) : Prop :=
+  match x, lb, ub with
+  | a :: x', l :: lb', u :: ub' =>
+      (match l with Some lq => lq <= a | None => True end) /\
+      (match u with Some uq => a <= uq | None => True end) /\ in_boxo x' lb' ub'
+  | [], [], [] => True
+  | _, _, _ => False
+  end.
+Fixpoint in_boxob (tol : Q) (x : vec) (lb ub : list (option Q)) : bool :=
+  match x, lb, ub with
+  | a :: x', l :: lb', u :: ub' =>
+      (match l with Some lq => Qle_bool (lq - tol) a | None => true end) &&
+      (match u with Some uq => Qle_bool a (uq + tol) | None => true end) && in_boxob tol x' lb' ub'
+  | [], [], [] => true
+  | _, _, _ => false
+  end.
+Lemma in_boxo_len x lb ub : in_boxo x lb ub -> length x = length lb /\ length x = length ub.
+Proof. revert lb ub; induction x as [|a x IH]; intros [|l lb] [|u ub]; simpl; try tauto.
+  intros (_ & _ & H). destruct (IH _ _ H). lia. Qed.
+Lemma in_boxob_spec x lb ub : in_boxob 0 x lb ub = true <-> in_boxo x lb ub.
+Proof.
+  revert lb ub; induction x as [|a x IH]; intros [|l lb] [|u ub]; simpl; try tauto; try (split; [discriminate|tauto]).
+  rewrite !Bool.andb_true_iff, IH. destruct l, u; rewrite ?Qle_bool_iff; intuition; try lra.
+Qed.
+(* minimum of r.x over the box; None when unbounded below *)
+Fixpoint boxmino (r : vec) (lb ub : list (option Q)) : option Q :=
+  match r, lb, ub with
+  | a :: r', l :: lb', u :: ub' =>
+      match boxmino r' lb' ub' with
+      | None => None
+      | Some t =>
+          if Qlt_le_dec a 0 then match u with Some uq => Some (a * uq + t) | None => None end
+          else if Qlt_le_dec 0 a then match l with Some lq => Some (a * lq + t) | None => None end
+          else Some t
+      end
+  | [], [], [] => Some 0
+  | _, _, _ => None
+  end.
+Lemma boxmino_le r x lb ub t : boxmino r lb ub = Some t -> in_boxo x lb ub -> t <= dot r x.
+Proof.
+  revert x lb ub t; induction r as [|a r IH]; intros [|c x] [|l lb] [|u ub] t HM HB; simpl in *;
+    try discriminate; try tauto.
+  - inversion HM; subst. lra.
+  - destruct HB as (H1 & H2 & HB).
+    destruct (boxmino r lb ub) as [t'|] eqn:E; [|discriminate].
+    specialize (IH x lb ub t' E HB).
+    destruct (Qlt_le_dec a 0) as [Ha|Ha].
+    + destruct u as [uq|]; [|discriminate]. inversion HM; subst. nra.
+    + destruct (Qlt_le_dec 0 a) as [Ha'|Ha'].
+      * destruct l as [lq|]; [|discriminate]. inversion HM; subst. nra.
+      * inversion HM; subst. assert (a == 0) by lra. nra.
+Qed.
